@@ -52,7 +52,7 @@ package container
 //@   ensures old(has(cq.current, uuid)) ==> has(cq.current, uuid) && cq.current[uuid].Container.State == resp.State && cq.current[uuid].Container.Priority == resp.Priority && cq.current[uuid].Container.LockedByUUID == resp.LockedByUUID
 //@   ensures !old(has(cq.current, uuid)) ==> !has(cq.current, uuid)
 
-//@ func Queue.Update property C14
+//@ func Queue.Update property C14,C16
 //@   ghost d0 $dom[string] = dom(cq.current)
 //@   ghost v0 $val[string]QueueEnt = vals(cq.current)
 //@   ghost du $dom[string] = dom(cq.current)
@@ -66,6 +66,9 @@ package container
 //@   # every entry recorded in dontupdate when the poll returned is, at the end,
 //@   # exactly as it was then: present iff it was present, with the same value
 //@   ensures result == nil && polled && !dunil ==> forall u string :: du[u] ==> has(cq.current, u) == d0[u] && (d0[u] ==> cq.current[u] == v0[u])
+//@   # an entry that is refreshed from the poll takes the polled container record
+//@   # as a whole (state, priority, ... - the scheduler orders and decides by it)
+//@   at assign .Container#1: assert $v == *ctr
 //@   loop 1: invariant cq == old(cq) && polled && (!dunil ==> cq.dontupdate != nil && cq.current != nil && dom(cq.dontupdate) == du)
 //@   loop 1: invariant !dunil ==> forall u string :: du[u] ==> has(cq.current, u) == d0[u] && (d0[u] ==> cq.current[u] == v0[u])
 //@   loop 2: invariant cq == old(cq) && polled && (!dunil ==> cq.dontupdate != nil && cq.current != nil && dom(cq.dontupdate) == du)
